@@ -196,7 +196,8 @@ BlockIds == {NumId(n) : n \in Nums} \cup {HashId(h) : h \in seen \cup {UnknownHa
 
 Status(n, l) == IF l # -1 /\ l >= n THEN "ACCEPTED_ON_L1" ELSE "ACCEPTED_ON_L2"
 
------------------------------- declarative layer ------------------------------
+--------------------------------------------------------------------------
+(* ---- declarative layer ---- *)
 (* Resolve(id): the number of the block of `chain` the identifier denotes, -1 if none *)
 DResolve(id) ==
   CASE id.k = "num" -> IF id.n < Len(chain) THEN id.n ELSE -1
@@ -262,7 +263,8 @@ DWant(a) ==
                          [] a.name = "getClassHashAt" -> [kind |-> "classhash", c |-> st.class[a.c]]
                          [] OTHER -> [kind |-> "class", c |-> st.class[a.c]]
 
----------------------------- implementation layer ----------------------------
+--------------------------------------------------------------------------
+(* ---- implementation layer ---- *)
 (* l1AcceptedBlockNumber (helpers.go): L1Head() or Height() failing with ErrKeyNotFound is
    BLOCK_NOT_FOUND, otherwise min(l1Head.BlockNumber, height) *)
 L1AcceptedNum == IF l1 = -1 \/ height = -1 THEN -1 ELSE Min(l1, height)
@@ -379,7 +381,8 @@ Next ==
 
 Spec == Init /\ [][Next]_vars
 
-------------------------------- properties -------------------------------
+--------------------------------------------------------------------------
+(* ---- properties ---- *)
 TypeOK ==
   /\ chain \in Paths \cup {<<>>}
   /\ height \in -1..(MaxLen - 1)
